@@ -94,7 +94,7 @@ func unitSki(r *vh.Rng, w *vh.Writer, victims []*crt) {
 		panic(fmt.Sprint("cert.SkiFromCertificate panicked: ", p))
 	}
 	w.Put(vh.Case{
-		Coq:        fmt.Sprintf("CSki %s %s %s", tblOf(c), c.coq(), vh.Opt(ok, vh.HxS(s))),
+		Coq:        fmt.Sprintf("CSki %s %s", c.dcoq(), vh.Opt(ok, vh.HxS(s))),
 		Nontrivial: c.hasSki && len(c.skiExt) == 20,
 		Key:        fmt.Sprintf("ski|%s|%s|%x|%x", kind, c.keyTyp, c.skiExt, c.spk),
 		Kind:       "unit_ski_" + kind,
@@ -137,7 +137,7 @@ func unitGen(r *vh.Rng, w *vh.Writer) {
 		kind = "unit_gen_invalid_utf8"
 	}
 	w.Put(vh.Case{
-		Coq:        fmt.Sprintf("CGen %s %s %s", tblOf(c), c.coq(), vh.Opt(ok, vh.HxS(s))),
+		Coq:        fmt.Sprintf("CGen %s %s", c.dcoq(), vh.Opt(ok, vh.HxS(s))),
 		Nontrivial: true, Key: key, Kind: kind, Sample: sample,
 	})
 }
